@@ -447,6 +447,8 @@ def case_circle(rng):
             o = [nudge(r0, rng.choice((-5, -1, 1, 5))), 0.0, 0.0]
         else:
             o = dyv(rng, -3, 3, 2)
+            if o[0] == 0 and o[1] == 0:     # the axis formula needs an exact square root: only the triples above
+                o[0] = 0.5
         obs.append(o), dia.append(d), cur.append(dy(rng, -3, 3, 2))
     obs, dia, cur = np.array(obs), np.array(dia), np.array(cur)
     out = run4(MODS["circle"].BHJM_circle, observers=obs, diameter=dia, current=cur)
@@ -835,6 +837,11 @@ def make_scenario(rng, cls):
         pol = nz_pol(rng)
         while True:
             pts = np.array([[fl(rng, -1.5, 1.5) for _ in range(3)] for _ in range(rng.choice((4, 5, 6, 8)))])
+            if rng.random() < 0.3:      # an axis-aligned box (8 corners)
+                pts = np.array([[sx, sy, sz] for sx in (-1.0, 1.0) for sy in (-1.0, 1.0) for sz in (-1.0, 1.0)])
+            # bodies that are NOT centred at their local origin and have different extents per axis
+            pts = pts * np.array([rng.choice((0.5, 1.0, 2.0)) for _ in range(3)]) + \
+                np.array([rng.choice((0.0, 0.0, 1.0, -1.5, 2.5)) for _ in range(3)])
             try:
                 faces, planes = hull_faces(pts)
             except Exception:   # pylint: disable=broad-except
@@ -1169,8 +1176,7 @@ def run(ctx):
     ok = ctx.regen(["GenConst", "GenWrapTol"])
     built = ctx.build_props() and ok
     if built:
-        ctx.refuted += ["C02_attr_sync_refuted", "C02_cylinder_edge_refuted", "C02_segment_surface_refuted"]
-        ctx.partial += ["C02_cylinder_partial", "C02_segment_partial", "C02_segment_internal_partial"]
+        ctx.refuted += ["C02_attr_sync_refuted"]
     if ctx.tier == "thorough" and built:
         ctx.coqchk("MV.Props.C02")
 
